@@ -255,6 +255,8 @@ package device
 //@   ensures [C01,C13] panicOut(old(out), old(outLen), out, outLen, old(sounding), sounding, ch)
 //@   ensures [C07] ccv == upd(old(ccv), 123, 0)
 //@   loop 1 invariant ccv == upd(old(ccv), 123, 0)
+//@   ensures [C17] extOK(d) && (forall c byte :: c < 16 ==> empty(d.externalNoteTracker[c]))
+//@   loop 2 invariant [C17] inmap != nil && (forall c byte :: c < i ==> has(inmap, c) && inmap[c] != nil && empty(inmap[c]) && allocated(inmap[c])) && i <= 16
 //@   ensures wf(d)
 //@   ensures [C01!] old(InvCore(d)) ==> InvCore(d)
 //@   loop 1 invariant note <= 128
@@ -576,3 +578,15 @@ package device
 //@   loop 2 invariant forall c byte, n byte :: c < ch ==> activeNoteCounter[c][n] == 0
 //@   loop 2 invariant forall n byte :: t[n] == 0
 //@   safety [C04]
+
+// ---- C17 (partial): MIDI-input tracking and panic clearing. The LED colour computation is not under contract.
+// the external tracker always has its 16 per-channel maps (re-established by Panic, which replaces it under the same mutex)
+//@ pred extOK(d *Device) := d.externalNoteTracker != nil && (forall ch byte :: ch < 16 ==> has(d.externalNoteTracker, ch) && d.externalNoteTracker[ch] != nil)
+
+//@ func (*Device).handleInputEvents
+//@   requires d != nil && extOK(d) && ctx != nil && wg != nil
+//@   assume env len(recv) == 0 || len(recv) >= 3
+//@   siteassert mapupdate(map[byte]bool) [C17] len(ev) >= 3 && ev[0] & 0xF0 == 0x90 && ev[2] > 0 && k == ev[1]
+//@   siteassert mapdelete(map[byte]bool) [C17] len(ev) >= 3 && (ev[0] & 0xF0 == 0x80 || (ev[0] & 0xF0 == 0x90 && ev[2] == 0)) && k == ev[1]
+//@   loop 1 invariant [C17] d != nil && extOK(d)
+//@   safety [C17]
